@@ -304,6 +304,36 @@ def directed_part(res, rnd, a, work):
     return viol, done
 
 
+FLOW_MISMATCH = []
+FLOW_COUNT = [0]
+
+
+def asm_codes(prog):
+    """the numeric rendering of Front/BondgoFlow.icode for an assembly listing"""
+    out = []
+    for l in prog:
+        w = l.replace(",", " ").split()
+        rg = lambda x: int(x[1:])
+        op = w[0]
+        if op == "clr":
+            out.append([1, rg(w[1])])
+        elif op == "rset":
+            out.append([2, rg(w[1]), int(w[2])])
+        elif op in ("cpy", "add", "mult"):
+            out.append([{"cpy": 3, "add": 4, "mult": 5}[op], rg(w[1]), rg(w[2])])
+        elif op in ("inc", "dec"):
+            out.append([6 if op == "inc" else 7, rg(w[1])])
+        elif op == "j":
+            out.append([8, int(w[1])])
+        elif op == "jz":
+            out.append([9, rg(w[1]), int(w[2])])
+        elif op == "r2o":
+            out.append([10, rg(w[1]), rg(w[2])])
+        else:
+            out.append([0])
+    return out
+
+
 def control_flow_part(res, rnd, a, work):
     import c12cf
     viol = []
@@ -314,7 +344,12 @@ def control_flow_part(res, rnd, a, work):
     body = ("From Coq Require Import List NArith Bool.\nFrom BM Require Import Front.BondgoCF.\nImport ListNotations.\n"
             "Definition M := Eval vm_compute in %s.\n"
             % C.cq_list(["\n map (fun w => [N.of_nat (fst w); snd w]) (%s)" % c12cf.render_coq(p_) for p_ in asts]))
-    wants = C.eval_cases("C12", "cf", body, timeout=1800)["M"]
+    # the model of the lowering (Front/BondgoFlow.v: allocation of Front/Bondgo.v + flatten) on the same trees; programs with calls are not lowered
+    body += ("From BM Require Import Front.BondgoFlow.\nDefinition A := Eval vm_compute in %s.\n"
+             % C.cq_list(["\n compile_codes %d %s" % (p_["nv"], c12cf.coq_stmts(p_["main"])) for p_ in asts]))
+    ev = C.eval_cases("C12", "cf", body, names=("M", "A"), timeout=1800)
+    wants, models = ev["M"], ev["A"]
+    flow_compared = 0
     for k, (ast_, want) in enumerate(zip(asts, wants)):
         src, rsize, nouts = c12cf.render_go(ast_), ast_["rsize"], ast_["nouts"]
         meta = {"source": src}
@@ -327,6 +362,13 @@ def control_flow_part(res, rnd, a, work):
             viol.append(("the compiler rejects a program of the accepted subset: %s" % (log or "")[-300:], meta))
             continue
         prog = [l.strip() for l in asm.splitlines() if l.strip()]
+        if models[k]:
+            flow_compared += 1
+            codes = asm_codes(prog)
+            if codes != [list(x) for x in models[k]]:
+                first = next((i for i, (x, y) in enumerate(zip(codes, models[k])) if x != list(y)), min(len(codes), len(models[k])))
+                FLOW_MISMATCH.append(("the emitted assembly differs from the lowering model (Front/BondgoFlow.v) at line %d: compiler %s, model %s"
+                                      % (first, prog[first] if first < len(prog) else "<end>", list(models[k][first]) if first < len(models[k]) else "<end>"), meta))
         m = re.search(r"Registersize: (\d+)", log or "")
         nregs = int(m.group(1)) if m else 4
         R = max(1, (nregs - 1).bit_length())
@@ -397,6 +439,7 @@ def control_flow_part(res, rnd, a, work):
                     viol.append(("on the machine the compiler requests, output %d shows the value sequence %s; the source writes %s to that output"
                                  % (o, seq[:10], wo[:10]), meta))
                     break
+    FLOW_COUNT[0] = flow_compared
     return viol, done
 
 
@@ -476,8 +519,10 @@ def run(res, a):
                     res.known_finding("c12_goroutine_arguments_rejected " + msg)
                 else:
                     viol.append((msg, {"source": text}))
+        del FLOW_MISMATCH[:]
         cf_viol, cf_done = control_flow_part(res, rnd, a, work)
         viol += cf_viol
+        res.coverage["control_flow_programs_lowering_compared_with_model"] = FLOW_COUNT[0]
         di_viol, di_done = directed_part(res, rnd, a, work)
         viol += di_viol
         res.coverage["directed_programs_compared"] = di_done
@@ -504,8 +549,8 @@ def run(res, a):
     for text, meta in viol[:3]:
         res.violation("C12 " + text, meta)
     if not viol:
-        for text, meta in mism[:3]:
+        for text, meta in (mism + FLOW_MISMATCH)[:3]:
             res.violation("C12 " + text, meta, nofail=("simulator model" not in text))
-    if failed and not viol and not mism:
+    if failed and not viol and not mism and not FLOW_MISMATCH:
         res.violation("C12 proof obligation no longer checks: %s" % failed, {"obligation": failed}, nofail=True)
     return res.finish("proof")
